@@ -356,7 +356,8 @@ func calcStatusCode(cfg *ResponseConfig, a *asset, segmentPart string, nowMS int
 		// Use nowMS = cycleStart to look up the latest segment published at that time
 		firstNr := cfg.getStartNr()
 		if nrWraps > 0 {
-			lastNr := findLastSegNr(cfg, a, wrapStartS*1000, segMeta.rep)
+			// wrapStartS is media time, i.e. relative to availabilityStartTime
+			lastNr := findLastSegNr(cfg, a, (cfg.StartTimeS+wrapStartS)*1000, segMeta.rep)
 			firstNr = lastNr + 1
 		}
 		segTime := findSegStartTime(a, cfg, firstNr, segMeta.rep)
